@@ -1,9 +1,10 @@
 ------------------------------ MODULE Dataflow ------------------------------
 (* The two dataflow analyses of guppylang_internals/cfg/analysis.py as the code runs
    them (CFG.analyze: both with include_unreachable = True), one action per worklist
-   iteration, with the worklist order left nondeterministic (the code pops from a
-   hash-ordered `set`, so every order is a possible schedule), plus the declarative
-   path-based solutions they are supposed to compute.
+   iteration, with the worklist order left nondeterministic (the property quantifies over
+   every visiting order; the code itself now pops the lowest/highest block index, and the
+   guarded hook _verif.pick lets the harness drive it through any order), plus the
+   declarative path-based solutions they are supposed to compute.
 
      mode = "live"    BackwardAnalysis.run for LivenessAnalysis
                       value of a block: dict  variable -> evidence block
@@ -81,7 +82,7 @@ PopLive(b) ==
     /\ b \in queue
     /\ IF Keys(before) # Keys(vb[b])           \* eq() compares key sets only
        THEN /\ vb' = [vb EXCEPT ![b] = before]
-            /\ queue' = (queue \ {b}) \cup Pred(b)      \* queue.update(bb.predecessors)
+            /\ queue' = (queue \ {b}) \cup AllPred(b)   \* queue.update(bb.predecessors [+ dummy_predecessors])
        ELSE /\ vb' = vb
             /\ queue' = queue \ {b}
     /\ UNCHANGED <<g, mode, va>>
@@ -103,7 +104,7 @@ PopAssign(b) ==
     /\ vb' = [vb EXCEPT ![b] = before]
     /\ IF after # va[b]
        THEN /\ va' = [va EXCEPT ![b] = after]
-            /\ queue' = (queue \ {b}) \cup Succ(b)      \* queue.update(bb.successors)
+            /\ queue' = (queue \ {b}) \cup AllSucc(b)   \* queue.update(bb.successors [+ dummy_successors])
        ELSE /\ va' = va
             /\ queue' = queue \ {b}
     /\ UNCHANGED <<g, mode>>
